@@ -40,6 +40,7 @@ def parseOp (s : String) : Option Op :=
   | ["mv", p, q] => some (.rename (str p) (str q))
   | ["ap", p, l] => (Hex.decode l).map (.appendLine (str p))
   | ["p"] => some .poll
+  | ["pp"] => some .patternPoll
   | _ => none
 
 def showStr (b : Bytes) : String := String.ofList (b.map (fun c => Char.ofNat c.toNat))
@@ -79,6 +80,7 @@ def handle (f : List String) : String :=
         let t' := if guardOp acc.1 op then step cfg acc.1 op else acc.1
         match op with
         | .poll => (t', acc.2 ++ ["T[" ++ ",".intercalate (C13.sortStr (t'.streams.map showStr)) ++ "]"])
+        | .patternPoll => (t', acc.2 ++ ["T[" ++ ",".intercalate (C13.sortStr (t'.streams.map showStr)) ++ "]"])
         | _ => (t', acc.2)) ({}, [])
       let del := C13.sortStr (t.delivered.map (fun d => showStr d.1 ++ "=" ++ Hex.encode d.2))
       " ".intercalate (outs ++ ["D[" ++ ",".intercalate del ++ "]"])
